@@ -545,6 +545,7 @@ func checkC14(c *Ctx) {
 	ruleSymDead(c, s)
 	ruleMinLen(c, "C14")
 	ruleLECount(c)
+	ruleWindowSearch(c)
 	_ = ssa.Function{}
 }
 
